@@ -6,6 +6,7 @@ import os
 import random
 import re
 import shutil
+import time
 from concurrent.futures import ThreadPoolExecutor
 
 import checks_rules as R
@@ -16,7 +17,8 @@ from vcommon import Run, ToolError, log
 OVERHEAD_MS = 250
 
 GO_ZERO = ["go", "go infinite", "go wtime 0 btime 0", "go wtime -5 btime -5 winc 0 binc 0", "go wtime 100 btime 100", "go wtime 101 btime 101",
-           "go movestogo 3", "go winc 0 binc 0 wtime 90 btime 90 movestogo 2"]
+           "go movestogo 3", "go winc 0 binc 0 wtime 90 btime 90 movestogo 2",
+           "go wtime -250 btime -250 winc 1000 binc 1000", "go wtime -1 btime -1 winc 5 binc 5 movestogo 2", "go wtime 0 btime 0 winc 2000 binc 2000"]
 GO_SMALL = ["go wtime 130 btime 130 movestogo 1", "go wtime 160 btime 160 winc 5 binc 5 movestogo 1", "go wtime 1000 btime 1000",
             "go btime 400 wtime 400 movestogo 4", "go wtime 50 btime 50 winc 40 binc 40", "go wtime 225 btime 225 movestogo 1"]
 GO_MEDIUM = ["go wtime 475 btime 475 movestogo 1", "go wtime 1100 btime 1100 movestogo 5", "go wtime 3850 btime 3850",
@@ -42,6 +44,27 @@ def model_walleye(run, tier):
     run.add("transitions", r["states"])
     run.cov.setdefault("model", []).append({"module": "Walleye (%s): safety + liveness, all interleavings" % cfg, "distinct_states": r["distinct"],
                                             "states_generated": r["states"], "wall_s": round(r["wall"], 1)})
+
+
+def inductive_walleye(run):
+    """Apalache (symbolic, parameters unbounded): IndInv of WalleyeInd.tla is inductive for the repaired configuration and
+    implies AnswerFitsPosition / ChannelFresh; the obligations are shown non-vacuous by two runs that must fail."""
+    t0 = time.time()
+    obligations = [("Init => IndInv", ["--cinit=CInit", "--init=Init", "--inv=IndInv", "--length=0"], "NoError"),
+                   ("IndInv /\\ Next => IndInv'", ["--cinit=CInit", "--init=IndInit", "--inv=IndInv", "--length=1"], "NoError"),
+                   ("IndInv => Safety", ["--cinit=CInit", "--init=IndInit", "--inv=Safety", "--length=0"], "NoError"),
+                   ("sanity: IndInit admits a go in service", ["--cinit=CInit", "--init=IndInit", "--inv=NotServing", "--length=0"], "Error"),
+                   ("sanity: shared-channel variant is not inductive", ["--cinit=CInitShared", "--init=IndInit", "--inv=IndInv", "--length=1"], "Error")]
+    from concurrent.futures import ThreadPoolExecutor as TPE
+    with TPE(max_workers=5) as ex:
+        outs = list(ex.map(lambda o: vcommon.apalache("WalleyeInd", o[1]), obligations))
+    res = []
+    for (name, _, want), got in zip(obligations, outs):
+        if got != want:
+            raise ToolError("inductive invariant obligation '%s': expected %s, got %s" % (name, want, got))
+        res.append({"obligation": name, "outcome": got})
+    run.cov["apalache_inductive_invariant"] = {"module": "WalleyeInd", "obligations": res, "wall_s": round(time.time() - t0, 1),
+                                               "note": "parameters MaxCmds/MaxMoves/MaxSlice/MaxSends symbolic; sequences bounded by the generators (channel <= 4)"}
 
 
 def pool(h, seed, small=10, mate=6, rep=4, game=8, term=0):
@@ -82,7 +105,9 @@ def plan(h, sessions):
                     st["wait_ms"] = 3000
                     continue
                 ex.update({"toks": e["toks"], "slice_w": e["slice_w"], "slice_b": e["slice_b"]})
-                st["wait_ms"] = max(e["slice_w"], e["slice_b"]) + 4000
+                # the sessions only use clocks that plan at most a few seconds; a plan beyond that (a defect) must not
+                # make the driver wait for it
+                st["wait_ms"] = min(max(e["slice_w"], e["slice_b"]), 6000) + 4000
 
 
 def run_sessions(binary, sessions, conc, trace_paths=None):
@@ -219,6 +244,16 @@ def c03(tier, replay):
         for _ in range(rng.randint(2, 6)):
             steps.append({"do": "go", "line": rng.choice(GO_ZERO + GO_SMALL + GO_ODD)})
         sessions.append(steps)
+    # the same position command repeated after a go (the engine's board has moved on; the command must set it back)
+    for _ in range(8 if q else 60):
+        p = rng.choice(live)
+        steps = []
+        for _ in range(rng.randint(2, 3)):
+            steps.append({"do": "send", "line": p})
+            if rng.random() < 0.3:
+                steps.append({"do": "isready"})
+            steps.append({"do": "go", "line": rng.choice(GO_ZERO + GO_SMALL)})
+        sessions.append(steps)
     # tiny slices (1-30 ms): the deadline falls into the first root move / the polling sleep
     for _ in range(10 if q else 100):
         steps = []
@@ -235,6 +270,7 @@ def c03(tier, replay):
         raise ToolError("coverage hole: fewer than 20 bestmove lines observed")
     thread_events(run, "C03", tier)
     model_walleye(run, tier)
+    inductive_walleye(run)
     run.cov["rule"] = ("sessions against the real binary (guard off): every command sequence of Walleye.tla's environment alphabet {position, go with zero "
                        "allowance, go with a clock, isready, ignored line} up to length 3 (quick: all of length <= 2 and a sample of length 3), runs of 2-6 "
                        "consecutive go on one position, and go with 1-30 ms slices followed by a zero-allowance go; positions from the scenario generators "
@@ -316,6 +352,58 @@ def go_grid(rng, n_random):
     return lines
 
 
+def big_slices(run, h, rng, n):
+    """Clocks beyond TLC's 32-bit integers (2^31 .. 2^40 ms): the engine's parse + slice on generated go lines, the contract
+    checked by Apalache (unbounded integers) on a generated module of literal events."""
+    lines = []
+    for _ in range(n):
+        c = rng.choice([2 ** 31, 2 ** 31 + 1, 2 ** 32, 2 ** 33 + 12345, 2 ** 36 - 1, 2 ** 40, rng.randint(2 ** 31, 2 ** 40)])
+        other = rng.choice([0, 50, 10 ** 6, rng.randint(2 ** 31, 2 ** 40)])
+        inc = rng.choice([0, 1, 1000, 2 ** 33])
+        m = rng.choice([None, 1, 2, 29, 30, 31, 40, 100])
+        parts = [("wtime", c), ("btime", other), ("winc", inc), ("binc", rng.choice([0, 7]))] if rng.random() < 0.5 else \
+                [("btime", c), ("wtime", other), ("binc", inc), ("winc", rng.choice([0, 7]))]
+        if m is not None:
+            parts.append(("movestogo", m))
+        rng.shuffle(parts)
+        lines.append("go " + " ".join("%s %d" % kv for kv in parts))
+    d = R.trace_dir("C09-big")
+    json.dump(lines, open(os.path.join(d, "in.json"), "w"))
+    vcommon.run_harness(h, ["slices", "--in", os.path.join(d, "in.json"), "--out", os.path.join(d, "all.ndjson")])
+    evs = [json.loads(l) for l in open(os.path.join(d, "all.ndjson"))]
+    recs = []
+    for e in evs:
+        if e.get("panic"):
+            run.violation("panic:" + e["line"].replace(" ", "_"), "parse_go_command panicked on a well-formed go", {"type": "slice", "line": e["line"]})
+            continue
+        x = e["exact"]
+        mtg = e["parsed"]["movestogo"] or 30
+        recs.append("[wc |-> %s, wi |-> %s, bc |-> %s, bi |-> %s, mtg |-> %d, sw |-> %s, sb |-> %s, swa |-> %s, sba |-> %s]" % (
+            x["wtime"], x["winc"], x["btime"], x["binc"], mtg, x["slice_w"], x["slice_b"], x["slice_w_alt"], x["slice_b_alt"]))
+    mod = os.path.join(vcommon.SPEC, "BigSlices_gen.tla")
+    with open(mod, "w") as f:
+        f.write("---- MODULE BigSlices_gen ----\n\\* generated by the C09 check: literal slice events with values beyond 32 bits\nEXTENDS SliceContract, Sequences\n")
+        f.write("\\* @type: Seq({wc: Int, wi: Int, bc: Int, bi: Int, mtg: Int, sw: Int, sb: Int, swa: Int, sba: Int});\nEvents == <<\n  " + ",\n  ".join(recs) + "\n>>\n")
+        f.write("VARIABLE\n  \\* @type: Int;\n  i\nInit == i = 1\nNext == i' = IF i < Len(Events) THEN i + 1 ELSE i\n")
+        f.write("\\* @type: ({wc: Int, wi: Int, bc: Int, bi: Int, mtg: Int, sw: Int, sb: Int, swa: Int, sba: Int}) => Bool;\n")
+        f.write("Ok(e) == /\\ SliceOK(e.wc, e.wi, e.mtg, e.sw) /\\ SliceOK(e.bc, e.bi, e.mtg, e.sb) /\\ e.swa = e.sw /\\ e.sba = e.sb\n")
+        f.write("AllOk == \\A j \\in DOMAIN Events : Ok(Events[j])\n====\n")
+    try:
+        outcome = vcommon.apalache("BigSlices_gen", ["--init=Init", "--inv=AllOk", "--length=0"])
+    finally:
+        os.remove(mod)
+    if outcome != "NoError":
+        # locate the failing events one by one (python integers are unbounded too; this only names the culprit)
+        for e in evs:
+            if e.get("panic"):
+                continue
+            run.violation("big-slice:" + e["line"].replace(" ", "_"), "slice contract violated beyond 32 bits (Apalache): " + e["line"],
+                          {"type": "slice", "line": e["line"]})
+            break
+    run.cov["big_value_slice_events_apalache"] = len(recs)
+    shutil.rmtree(d, ignore_errors=True)
+
+
 def c09(tier, replay):
     run = mk("C09", tier, replay)
     if replay:
@@ -358,6 +446,7 @@ def c09(tier, replay):
     shutil.rmtree(d, ignore_errors=True)
     if replay:
         return run.finish()
+    big_slices(run, h, rng, 150 if q else 1500)
     # timed part: the real delay against the plan (the colour decides which clock counts)
     binary = vcommon.build_binary(False)
     live, _ = pool(h, vcommon.seed() + 2, 6, 2, 0, 6)
@@ -378,7 +467,7 @@ def c09(tier, replay):
                        "side's values varied, keyword order permuted, unknown tokens interleaved) + random lines through parse_go_command and calculate_time_slice; "
                        "TLC re-parses the tokens (TimeControl!ParseGo) and checks SliceOK for both colours and independence from the other side's values; timed: "
                        "go->bestmove delay of the real binary within [plan, plan + %d ms] with clocks whose colour mix-up would move the delay by >= 250 ms" % OVERHEAD_MS)
-    run.assumptions.append("values beyond 2*10^8 ms are outside TLC's 32-bit integers and not covered")
+    run.assumptions.append("values beyond 2*10^8 ms are outside TLC's 32-bit integers: the range 2^31..2^40 ms is checked with Apalache on a generated module; beyond 2^40 the engine's f64 arithmetic is not exact and is not judged")
     return run.finish()
 
 
@@ -535,9 +624,13 @@ def position_dumps(run, pid, tier):
     d = R.trace_dir(pid + "-dump")
     for i in range(10 if q else 80):
         steps = []
+        last = None
         for _ in range(rng.randint(2, 5)):
-            steps.append({"do": "send", "line": rng.choice(live + reps)})
-            if rng.random() < 0.3:
+            # sometimes the very same command again (after a go the engine's board has moved on)
+            line = last if (last and rng.random() < 0.3) else rng.choice(live + reps)
+            last = line
+            steps.append({"do": "send", "line": line})
+            for _ in range(rng.choice([0, 1, 1, 2, 3])):
                 steps.append({"do": "go", "line": rng.choice(GO_ZERO)})
         steps.append({"do": "isready"})
         sessions.append(steps)
@@ -562,6 +655,35 @@ def position_dumps(run, pid, tier):
                 out.append({"ev": "posdump", "board": {"r": b["r"], "stm": b["stm"], "cr": b["cr"], "ep": b["ep"]},
                             "table": [[x[0], x[1]] for x in dd["table"] if x[1] != 0]})
         merged.append(out)
+    # the record handed to the search at every go (go_start events of the same sessions)
+    merged2 = []
+    for evs, tp in zip(merged, traces):
+        starts = []
+        if os.path.exists(tp):
+            for l in open(tp):
+                e = json.loads(l)
+                if e["ev"] == "go_start":
+                    b = e["board"]
+                    starts.append({"ev": "hk", "h": "go_start", "seq": e["seq"], "expired": False,
+                                   "board": {"r": b["r"], "stm": b["stm"], "cr": b["cr"], "ep": b["ep"], "d": b["d"]},
+                                   "table": [[x[0], x[1]] for x in e["table"] if x[1] != 0]})
+        searched, cur = set(), None
+        for i, e in enumerate(evs):
+            if e["ev"] == "in" and e.get("go"):
+                cur = i
+                searched.add(i)
+            elif e["ev"] == "out" and e.get("k") == "bestmove" and cur is not None:
+                if e.get("move") in ("0000", "(none)"):
+                    searched.discard(cur)
+                cur = None
+        out, k = [], 0
+        for i, e in enumerate(evs):
+            out.append(e)
+            if i in searched and k < len(starts):
+                out.append(starts[k])
+                k += 1
+        merged2.append(out)
+    merged = merged2
     shutil.rmtree(d, ignore_errors=True)
     totals = validate(run, pid, "dumps", merged, also=(), scripts=sessions, binary=None)
     if totals.get("posdumps", 0) < 10:
@@ -569,7 +691,7 @@ def position_dumps(run, pid, tier):
     run.cov["position_dumps_from_real_loop"] = totals.get("posdumps", 0)
 
 
-def thread_events(run, pid, tier):
+def thread_events(run, pid, tier, with_tables=False):
     """The instrumented binary writes one event per linearization point of Walleye.tla's actions (go_start, srch_send,
     io_recv, io_exit) under a global sequence number; TraceUci replays them against the model's channel / best / root."""
     rng = random.Random(vcommon.seed() * 31 + 33)
@@ -588,6 +710,7 @@ def thread_events(run, pid, tier):
     plan(h, sessions)
     logs = run_sessions(binary, sessions, 8, traces)
     merged = []
+    traces_kept = [open(tp).read().splitlines() if os.path.exists(tp) else [] for tp in traces]
     for evs, tp in zip(logs, traces):
         hk = []
         if os.path.exists(tp):
@@ -601,6 +724,39 @@ def thread_events(run, pid, tier):
         # the process events form their own totally ordered sub-trace (global sequence number); they are appended
         # after the driver's view of the same session
         merged.append(evs + hk)
+    if with_tables:
+        # sessions for the record-at-go conjunct: the go_start events (with the record handed to the search) are placed
+        # right after the go command they belong to, so that TraceUci compares them with the game of the position
+        # command in force at that moment
+        merged2 = []
+        for evs, tp in zip(logs, traces_kept):
+            starts = []
+            for l in tp:
+                e = json.loads(l)
+                if e["ev"] == "go_start":
+                    b = e["board"]
+                    starts.append({"ev": "hk", "h": "go_start", "seq": e["seq"], "expired": False,
+                                   "board": {"r": b["r"], "stm": b["stm"], "cr": b["cr"], "ep": b["ep"], "d": b["d"]},
+                                   "table": [[x[0], x[1]] for x in e["table"] if x[1] != 0]})
+            # a go answered with the null move never reached the search (no go_start); every other go did
+            searched = set()
+            cur = None
+            for i, e in enumerate(evs):
+                if e["ev"] == "in" and e.get("go"):
+                    cur = i
+                    searched.add(i)
+                elif e["ev"] == "out" and e.get("k") == "bestmove" and cur is not None:
+                    if e.get("move") in ("0000", "(none)"):
+                        searched.discard(cur)
+                    cur = None
+            out, k = [], 0
+            for i, e in enumerate(evs):
+                out.append(e)
+                if i in searched and k < len(starts):
+                    out.append(starts[k])
+                    k += 1
+            merged2.append(out)
+        merged = merged2
     shutil.rmtree(d, ignore_errors=True)
     totals = validate(run, pid, "hooks", merged, scripts=sessions, binary=None)
     if totals.get("hook_recvs", 0) < 10:
